@@ -20,6 +20,7 @@
 //!                             -> code wrote(0/1), payload = bytes appended to buf
 //!   [4, window|-1, b...]      DatagramState::received(Datagram{b}, &window)
 //!                             -> code 0, payload [was_empty] | code 1 PROTOCOL_VIOLATION | code 9 other error
+//!                             | code 8: not called, its eviction loop would never terminate (accounting broken)
 //!   [5]                       Datagrams::recv()                -> code 1, payload bytes | code 0 (None)
 //!   [6, max_payload]          DatagramState::drop_oversized    -> code dropped_any(0/1)
 //!   [7]                       Datagrams::send_buffer_space()   -> code 0, payload [v]
@@ -131,6 +132,17 @@ fn datagrams(ops: &Ops) -> Outs {
             }
             (4, n) if n >= 2 => {
                 let window = opt(op[1]);
+                // Termination guard (never taken on correct accounting): the eviction loop of
+                // `received` spins forever if bytes remain accounted after the queue is empty.
+                let queued: usize = conn.datagrams.incoming.iter().map(|d| d.data.len()).sum();
+                let residual = conn.datagrams.recv_buffered.saturating_sub(queued);
+                let len = op.len() - 2;
+                if let Some(w) = window {
+                    if len <= w && len + residual > w {
+                        out.push(obs(8, &conn, &[]));
+                        continue;
+                    }
+                }
                 match conn.datagrams.received(
                     Datagram {
                         data: bytes_of(&op[2..]),
